@@ -20,4 +20,5 @@ MUTANTS = [
     {'id': 'c09-benign-reorder-checks', 'props': ['C09'], 'expect': 'silent',
      'edits': [(LIB, "        // Refuse an over-long name before anything is registered or written\n        if filename.len() as u64 > FILENAME_MAX_SIZE {\n            return Err(Error::FilenameTooLong);\n        }\n\n        if self.files_info.contains_key(filename) {\n            return Err(Error::DuplicateFilename);\n        }\n",
                 "        if self.files_info.contains_key(filename) {\n            return Err(Error::DuplicateFilename);\n        }\n        if filename.len() as u64 > FILENAME_MAX_SIZE {\n            return Err(Error::FilenameTooLong);\n        }\n")]},
+    {'id': 'c09-entry-refusal-after-vacant-insert', 'props': ['C09'], 'expect': 'fire', 'keys': ['refusal:FilenameTooLong#0|after-effect'], 'patch': 'patches/c09-entry-refusal-after-vacant-insert.diff'},
 ]
